@@ -72,7 +72,8 @@ def long_case(case, res, rng, d):
     fs_hdr = [30000.75, 30000.0, 30000.390639481, 29999.757983][case["seed"] % 4]
     b, rec = np2.build(rng, root, kind=kind, ns=ns, gain=gain, sites=sites, raw=raw, claim_ns=ns + delta if delta else None, fs=fs_hdr)
     res.count("calibrated_rate_headers", int(fs_hdr != 30000.0))
-    tsec = np2.round_duration(b.with_suffix(".meta"), ns + delta, rec.fs, rng) if rng.random() < 0.7 else None
+    # (the first long case of a run keeps the duration at full precision: announced and actual durations then differ by ONE sample period exactly)
+    tsec = np2.round_duration(b.with_suffix(".meta"), ns + delta, rec.fs, rng) if (rng.random() < 0.7 and not first) else None
     b = np2.compress_original(b, rec, chunk_duration=1.0)
     label = f"{kind} gain={gain[0]}/{gain[1]} ns={ns} (ns % 12 = {ns % 12}) original=cbin imSampRate={fs_hdr}, metadata announces {ns + delta} samples" + (f", fileTimeSecs={tsec}" if tsec else "")
     res.count("long_cbin_cases")
